@@ -10,10 +10,15 @@ package redisemu
 //@ ensures result != nil && result.data != nil && result.waitingClients != nil && result.data.count == 0
 
 //@ func dataStore.newDataStoreCommand
-//@ trusted allocates a command object with the next command id for this store
+//@ prop C08 C16
+//@ safetyprop C13
 //@ requires ds != nil
 //@ modifies alloc ds->commandNumber
-//@ ensures result != nil && result.ds == ds && result.id != 0 && result.id != ds.multiLock
+// a command id is never 0, the idle value of multiLock: lock() compares the two to decide that the
+// caller already owns the store
+//@ ensures [C08,C16] id.nonzero: result != nil && result.ds == ds && result.id != 0
+// ids of live commands are distinct (a counter modulo 2^31 with one bit forced: not proved; collisions need 2^27 commands in flight)
+//@ ensures free id.unique: result.id != ds.multiLock
 
 //@ pred dssOK(dss *dataStoreSet) = dss != nil && dss.dbs != nil
 // table invariant: only indexes 0..15 are present and every entry is a database (established by createDbUnlocked, the only writer)
